@@ -502,6 +502,7 @@ func vRunRace(c *vCase) {
 			s.groups = []vAbGroup{{first: 0, nchan: 3, snBase: 100, producer: 0, lost: map[int]bool{}}, {first: 8, nchan: 2, snBase: 5000, producer: 1, lost: map[int]bool{}}}
 			run := &vAbRun{s: s, nextIdx: []int{6, 6}, delivered: make([][]int, 2), calls: make([]int, 2), starts: make([]int, 2), stops: make([]int, 2)}
 			run.backlog = func() int { return len(sc.abaco.buffersChan) }
+			run.extEvery = 3 // external-trigger packets arrive too: the reader queues them, block assembly converts them
 			sc.abaco.producers = []PacketProducer{&vAbProducer{run: run, id: 0}, &vAbProducer{run: run, id: 1}}
 			return true
 		}
@@ -515,6 +516,7 @@ func vRunRace(c *vCase) {
 	atomic.StoreInt32(&e.yieldOn, 0)
 	c.Describe("blocks=%d requests=%d yields=%d saves=%d", e.get("core.process.end")-before["core.process.end"], atomic.LoadInt64(&e.requests)-reqBefore,
 		e.get("yields")-before["yields"], e.get("save.done")-before["save.done"])
+	c.Cov("abaco_external_trigger_entries", int(atomic.SwapInt64(&vAbExtSentTotal, 0)))
 	c.Cov("workload_"+w.name, 1)
 	c.Cov("blocks_processed", int(e.get("core.process.end")-before["core.process.end"]))
 	c.Cov("requests_run_in_core_loop", int(e.get("core.request.end")-before["core.request.end"]))
